@@ -507,6 +507,11 @@ def arg_is_tainted(a, tvars):
     return any(s.rsplit("::", 1)[1] + "(" in txt and (".offset(" in txt or ".rawText(" in txt or "gptr(" in txt or "curptr(" in txt) for s in TAINT_SOURCES)
 
 
+def REPO_PREFIX():
+    from . import facts as _f
+    return _f.REPO + "/"
+
+
 def taint_flows(func):
     """Yield (event, sink-name, argument-text, bounded?) for every use of a bounded-buffer pointer in a libc / std::string sink."""
     tv = tainted_vars(func)
@@ -518,9 +523,24 @@ def taint_flows(func):
                     if arg_is_tainted(a, tv):
                         yield e, c, a.get("t"), c in BOUNDED_SINKS
                         break
+            elif not (e.get("cfile") or "").startswith(REPO_PREFIX()) and e.get("cparams") is not None:
+                # the C-string interfaces of the standard string / stream classes: `s + p`, `s += p`, `s.append(p)`, `s == p`,
+                # `s.find(p)`, `os << p`, ... read up to a NUL unless the parameter is followed by a count
+                cps = e.get("cparams") or []
+                args = e.get("args") or []
+                if len(args) == len(cps) + 1:
+                    args = args[1:]         # member operator: the object itself is the first argument
+                stringy = any(x in ((e.get("ccls") or "") + " " + " ".join(cps)) for x in ("basic_string", "basic_ostream", "basic_string_view"))
+                if stringy and len(args) == len(cps):
+                    for i, a in enumerate(args):
+                        if cps[i].replace(" ", "") in ("constchar*", "char*") and arg_is_tainted(a, tv):
+                            nxt = cps[i + 1].replace("const ", "").strip() if i + 1 < len(cps) else ""
+                            counted = nxt in ("size_t", "unsigned long", "long", "std::size_t", "std::streamsize", "unsigned int", "int") or nxt.endswith("size_type")
+                            yield e, "%s(const char*%s)" % (strip_tmpl(c), ", n" if counted else ""), a.get("t"), counted
+                            break
         else:
             cls = strip_tmpl(e.get("cls") or "")
-            if cls == "std::basic_string":
+            if cls in ("std::basic_string", "std::basic_string_view"):
                 args = e.get("args") or []
                 real = [a for a in args if not a.get("dflt")]
                 if real and arg_is_tainted(real[0], tv):
@@ -1910,3 +1930,46 @@ def guard_release_rule(ck, rule_id, scope, what, minimum_guards):
     ck.require(n >= minimum_guards, "%s: only %d RAII guards found in scope" % (rule_id, n))
     ck.ob(rule_id, "guards-in-scope", True, "", "", "%d RAII guards constructed in scope; every release() judged above" % n, nontrivial=False)
     return n
+
+
+# ---------- value classes do not point into themselves ----------
+
+def self_view_rule(ck, rule_id, class_names, what):
+    """A value class that is copied and moved with the implicitly generated operations must not keep a non-owning member (string_view,
+    pointer, iterator) that is set to point into another member of the same object: the copy's view still refers to the source's
+    storage.  Reports only the definite witness: a store to such a member whose right-hand side mentions an owning member of `this`,
+    in a class without user-provided copy operations."""
+    prog = ck.prog
+    ck.rule(rule_id, "I type-level (self-contained value)",
+            "%s: no member is a view (std::string_view, pointer, iterator) into another member of the same object while copy and move "
+            "are the implicit member-wise ones -- a copied value would answer from the storage of the object it was copied from, which "
+            "may be re-assigned or gone" % what, 1)
+    NONOWNING = ("basic_string_view", "_iterator", "initializer_list")
+    for cn in class_names:
+        c = prog.cls(cn)
+        ck.require(c is not None, "class %s not found" % cn)
+        short = cn.rsplit("::", 1)[1]
+        views = [x for x in c["fields"] if any(k in (x.get("ctype") or x["type"]) for k in NONOWNING) or (x.get("ctype") or x["type"]).rstrip().endswith(("*", "&"))]
+        own_copy = any(m.get("ctor") and ("const %s &" % short) in (m.get("sig") or "").replace(cn.rsplit("::", 1)[0] + "::", "") for m in c.get("methods", []))
+        owning = {x["q"] for x in c["fields"] if x not in views}
+        bad = []
+        for f in prog.funcs.values():
+            if not f.blocks or not (f.cls == cn or (f.is_lambda and prog.owner(f).cls == cn)):
+                continue
+            for e in f.events(("assign", "call", "init")):
+                if e["k"] == "assign":
+                    tgt = e["lhs"].get("f")
+                elif e["k"] == "init":
+                    tgt = e.get("f")
+                else:
+                    tgt = (e.get("recv") or {}).get("f") if e.get("op") == "=" else None
+                tgt = strip_tmpl(tgt or "")
+                if tgt not in {v["q"] for v in views}:
+                    continue
+                srcs = [r[2:] for r in (e.get("refs") or []) if r.startswith("f:") and strip_tmpl(r[2:]) in owning]
+                if srcs and not own_copy:
+                    bad.append((e, tgt, srcs[0], f))
+        ck.ob(rule_id, "%s/self-contained" % short, not bad, (bad[0][0].loc if bad else "%s:%s" % (c.get("file"), c.get("line"))), (bad[0][3] if bad else ""),
+              "%d member(s), %d non-owning, none set to point into the object itself" % (len(c["fields"]), len(views)) if not bad else
+              "%s is set to refer into %s of the same object (line %s) and %s is copied member-wise: the copy's %s views the original's storage"
+              % (bad[0][1].rsplit("::", 1)[1], bad[0][2].rsplit("::", 1)[1], bad[0][0].get("l"), short, bad[0][1].rsplit("::", 1)[1]))
